@@ -57,6 +57,11 @@ def consts_profile(env):
     p.leaf(STRING, p.sym("s", STRING), m.String('a"b'), m.String('""'), m.String("x y"), m.String(""), m.String("\\"))
     p.leaf(("BV", 4), p.sym("u", ("BV", 4)), m.BV(0, 4), m.BV(15, 4), m.BV(9, 4))
     p.leaf(("BV", 8), m.BV(255, 8), m.BV(16, 8))
+    # wide constants, widths that are / are not multiples of 4
+    for w_, vals in ((33, (5, 2 ** 32 + 1)), (36, (2 ** 35 + 9,)), (64, (2 ** 63,)), (65, (2 ** 64 + 1, 0))):
+        p.leaf(("BV", w_), p.sym("w%d" % w_, ("BV", w_)), *[m.BV(v, w_) for v in vals])
+        p.op("bveq%d" % w_, [("BV", w_), ("BV", w_)], BOOL, lambda m, a, b: m.Equals(a, b))
+        p.op("bvadd%d" % w_, [("BV", w_), ("BV", w_)], ("BV", w_), lambda m, a, b: m.BVAdd(a, b))
     p.op("plus", [INT, INT], INT, lambda m, a, b: m.Plus(a, b))
     p.op("times", [INT, INT], INT, lambda m, a, b: m.Times(a, b))
     p.op("le", [INT, INT], BOOL, lambda m, a, b: m.LE(a, b))
@@ -329,7 +334,9 @@ def parts(ctx):
     A(dict(name="quant-d2", profile=P.quant_profile, depth=2, shards=16, dom={INT: (0, 1)}, max_new=1))
     A(dict(name="names-d2", profile=names_profile, depth=2, shards=16, dom={INT: (0, 1)}, max_new=1))
     A(dict(name="consts-d2", profile=consts_profile, depth=2, shards=8, max_new=1,
-           dom={INT: (0, 3), REAL: (Fraction(0), Fraction(1, 2)), STRING: ("", 'a"')}))
+           dom={INT: (0, 3), REAL: (Fraction(0), Fraction(1, 2)), STRING: ("", 'a"'),
+                ("BV", 33): (0, 5, 2 ** 32 + 1), ("BV", 36): (0, 2 ** 35 + 9), ("BV", 64): (1, 2 ** 63),
+                ("BV", 65): (0, 2 ** 64 + 1)}))
     A(dict(name="sorts-d2", profile=sorts_profile, depth=2, shards=8, dom={INT: (0, 1)}))
     if not q:
         A(dict(name="names-d3", profile=names_profile, depth=3, shards=64, dom={INT: (0, 1)}, max_new=1,
